@@ -30,6 +30,47 @@ def impl_prefix_tree(s, ctx, errpos):
     return []
 
 
+CLOSERS = ['}', '$', '$$', '\\)', '\\]', ']', '\\end{e}', '\\end{q}', '\\end{itemize}', '\\end{equation}']
+
+
+def completion_tree(s, ctx):
+    """(closers, tree) for the shortest sequence of <= 3 closing delimiters that makes s strictly parseable
+    (real strict parser), or None.  Only for inputs that do not end inside a comment or a control word."""
+    import itertools
+    if not s or s.rstrip(' ')[-1:].isalpha() and '\\' in s[-12:] or '%' in s.split('\n')[-1]:
+        return None
+    if s.endswith('\\'):
+        return None                 # a closer would be glued to the escape character (\\ + ] = \\])
+    for n in (1, 2, 3):
+        for cl in itertools.product(CLOSERS, repeat=n):
+            if s.endswith('$') and cl[0].startswith('$'):
+                continue            # $ + $ would be read as one $$ token
+            r = pc.impl_parse(s + ''.join(cl), ctx, 'strict')
+            if r['ok']:
+                if _closers_only_close(r['v']['ns'], len(s)):
+                    return ''.join(cl), r['v']['ns']
+                return None         # the added text did something else than closing open constructs: no claim
+    return None
+
+
+def _closers_only_close(ns, slen):
+    """The appended closers must act as closing delimiters only: every node reaching beyond the original input is a
+    group, formula or environment (not a macro call that took them as arguments, not a leaf containing them), and these
+    nodes form one nested chain."""
+    beyond = [n for n in ns if n['end'] > slen]
+    if len(beyond) > 1:
+        return False
+    for n in beyond:
+        if n['k'] not in ('group', 'math', 'env') or n['pos'] >= slen:
+            return False
+        kids = [x for a in n['args'] for x in a['ns']] + list(n['body'])
+        if any(x['end'] > slen for a in n['args'] for x in a['ns']):
+            return False            # an argument (not the body) swallowed a closer
+        if not _closers_only_close(list(n['body']), slen):
+            return False
+    return True
+
+
 class TolerantConsumer(Consumer):
     def __init__(self, payload):
         super().__init__(payload)
@@ -79,6 +120,13 @@ class TolerantConsumer(Consumer):
             # (c) keeps the prefix
             tn = impl_prefix_tree(s, ctx, i_s.get('pos'))
             self.keep(self.tree_traces, case2, dict(kind='prefix_kept', s=codes(s), ns=i_t['v']['ns'], tn=tn), reason)
+            # (c'), input that only lacks its closing delimiters: everything precedes the error (the end of input), so every
+            # leaf of the strict parse of the completed document must be among the nodes tolerant mode returns
+            comp = completion_tree(s, ctx) if self.payload.get('completion', True) else None
+            if comp is not None:
+                self.counters['completions'] += 1
+                self.keep(self.tree_traces, dict(case2, completed_with=comp[0]),
+                          dict(kind='completion_kept', s=codes(s), ns=i_t['v']['ns'], cn=comp[1], slen=len(s)), reason)
 
     def result(self):
         r = super().result()
@@ -87,10 +135,7 @@ class TolerantConsumer(Consumer):
 
 
 def validate(ctx, merged):
-    # deviations beyond the cap were not judged: if none of the judged ones was rejected the run cannot conclude
-    if merged['counters'].get('deviations_not_kept') and not ctx.violations:
-        raise common.MachineryError('too many deviating executions to validate (%d dropped)'
-                                    % merged['counters']['deviations_not_kept'])
+    dropped = merged['counters'].get('deviations_not_kept')
     for key, module in (('out', 'Outcome'), ('tree', 'TraceTree')):
         items = []
         for ex in merged['extra']:
@@ -112,6 +157,9 @@ def validate(ctx, merged):
             ctx.violation('acceptor-rejects', case, detail=dict(d, kind=tr['kind'], outcome=tr.get('outcome'), exc=tr.get('exc')),
                           sig=dict(clause='acceptor-rejects', kind=tr['kind'], outcome=tr.get('outcome'), exc=tr.get('exc'),
                                    failed=','.join(d.get('failed_clauses', [])) or '?'))
+    # deviations beyond the cap were not judged: if none of the judged ones was rejected the run cannot conclude
+    if dropped and not ctx.violations:
+        raise common.MachineryError('too many deviating executions to validate (%d dropped)' % dropped)
 
 
 def run(ctx):
@@ -121,13 +169,15 @@ def run(ctx):
                 'modes; deviating and sampled executions are judged by the TLC acceptors on the implementation\'s own '
                 'results. Non-trivial: strict mode rejects the string.')
     plans = [('k', pc.K_ATOMS, 3), ('default', pc.D_ATOMS, 3)] if quick else \
-            [('k', pc.K_ATOMS, 4), ('default', pc.D_ATOMS, 4)]
+            [('k', pc.K_ATOMS, 3), ('default', pc.D_ATOMS, 3), ('k', pc.K_ATOMS, 4), ('default', pc.D_ATOMS, 4)]
     invs = ['TolerantTotal', 'TolerantEqualsStrict', 'TolerantKeepsPrefix', 'NoNonterm']
     pc.SOUP_VOLUME.update(num=150 if quick else 1500, nseeds=8 if quick else 16, seed=ctx.seed)
     plans += [('k', pc.K_ATOMS, pc.SOUP + (9 if quick else 14)), ('default', pc.D_ATOMS, pc.SOUP + (9 if quick else 14))]
     for cname, atoms, K in plans:
+        # the completion oracle (closing delimiters appended) has been validated on every string of <= 3 atoms; longer
+        # strings and the random soups are judged by the other clauses only
         jobs = pc.export_jobs(atoms, cname, K, ['strict', 'tolerant'], invs,
-                              payload=dict(sample_every=97 if quick else 997), timeout=6000)
+                              payload=dict(sample_every=97 if quick else 997, completion=(K <= 3)), timeout=6000)
         m = common.run_shards(ctx, ('harness.c06', 'TolerantConsumer'), jobs, what='ParseRun both modes %s %s' % (cname, pc.kdesc(K)))
         ctx.add_merged(m)
         ctx.log('%s %s: %d strings; %s' % (cname, pc.kdesc(K), m['n'], {k: v for k, v in m['counters'].items() if 'same' in k or 'dev' in k}))
